@@ -389,7 +389,7 @@ class Soap11(XmlDocument):
             ctx.out_document.append(ctx.out_body_doc)
 
         if self.cleanup_namespaces:
-            etree.cleanup_namespaces(ctx.out_document)
+            self._cleanup_namespaces(ctx.out_document)
 
         self.event_manager.fire_event('after_serialize', ctx)
 
